@@ -1,10 +1,12 @@
 import Abyss.Props.C05
+import Abyss.Props.C01Gen
 #print axioms Abyss.C05_reachable
 #print axioms Abyss.C05_structure
 #print axioms Abyss.C05_reader
 #print axioms Abyss.C05_checkInv_sound
 #print axioms Abyss.parse_render
 #print axioms Abyss.C02_reopen
+#print axioms Abyss.genRun_refines
 #print axioms Abyss.Store.put_spec
 #print axioms Abyss.Store.del_spec
 #print axioms Abyss.Store.get_spec
